@@ -70,6 +70,19 @@ structure Quirks where
   spliceIgnoresRename : Bool := false
   /-- `UnboundQlassf.bind` injects the bare literal: the declared `Parameter[T]` is dropped -/
   bindDropsType : Bool := false
+  /-- `QintImp.mod` computes `x & (y - 1)` also for a literal right operand that is not a power of two -/
+  modNonPow2 : Bool := false
+  /-- `QintImp.mod` accepts a right operand that is not a literal (`x & (y - 1)` is right only when it holds 2^n) -/
+  modVarDivisor : Bool := false
+  /-- `Qchar.eq/neq` compare only the zipped prefix of operands of different widths -/
+  charEqZip : Bool := false
+  /-- `translate_statement(Assign)`: a tuple-typed value keeps the flat bit list of `Arg.to_exp`, so the
+  new variable's bits are named `v.0 … v.n` instead of by type (`v.1.0`); later `v[i]` reads undefined symbols -/
+  tupleAssignFlat : Bool := false
+  /-- `translate_ast` accepts a body that never binds `_ret` -/
+  noReturnAccepted : Bool := false
+  /-- `translate_expression(Subscript)`: a negative constant index passes the bound test (`int(i) < size`) -/
+  negIndexAccepted : Bool := false
   deriving Repr, DecidableEq, Inhabited
 
 def Quirks.none : Quirks := {}
@@ -105,6 +118,12 @@ def Quirks.ofList (l : List String) : Quirks :=
     subsSequential := l.contains "subsSequential"
     renameSequential := l.contains "renameSequential"
     spliceIgnoresRename := l.contains "spliceIgnoresRename"
-    bindDropsType := l.contains "bindDropsType" }
+    bindDropsType := l.contains "bindDropsType"
+    modNonPow2 := l.contains "modNonPow2"
+    modVarDivisor := l.contains "modVarDivisor"
+    charEqZip := l.contains "charEqZip"
+    tupleAssignFlat := l.contains "tupleAssignFlat"
+    noReturnAccepted := l.contains "noReturnAccepted"
+    negIndexAccepted := l.contains "negIndexAccepted" }
 
 end QV
